@@ -273,6 +273,109 @@ def s_match_constant(ctx):
               (z3.BoolVal(r) if isinstance(r, bool) else term(r)) == want, "C06: 'constants agree within the stated tolerance'")
 
 
+class RArr:
+    """1-D / 2-D constant array of symbolic reals (what const_value.numpy() returns)"""
+
+    def __init__(self, items, shape):
+        self.items = list(items)
+        self.shape = tuple(shape)
+        self.ndim = len(self.shape)
+        self.size = len(self.items)
+
+    def item(self, *a):
+        return self.items[a[0] if a else 0]
+
+    def __iter__(self):
+        return iter(list(self.items))
+
+    def __len__(self):
+        return self.shape[0] if self.shape else 0
+
+    def tolist(self):
+        return list(self.items)
+
+
+for _n in ("item", "__iter__", "__len__", "tolist"):
+    getattr(RArr, _n)._pyvc_native = True
+
+
+def s_match_constant_list(ctx):
+    """_match_constant with a LIST-valued pattern constant [p_0..p_{n-1}]: matches iff the value is a known (not overridable)
+    1-D constant of exactly n elements and every element is close to its pattern element in the sense the pattern states:
+    |c - p| <= max(rel_tol * max(|c|, |p|), abs_tol)  (the documented math.isclose tolerance of pattern.Constant)."""
+    import math
+    import numpy as np
+    import onnx_ir as ir
+    from onnxscript.rewriter import _matcher, _pattern_ir
+    I = Interp(ctx)
+    I.models[math.isclose] = m_isclose
+
+    def R(v):
+        t = term(v)
+        return z3.ToReal(t) if t.sort() == z3.IntSort() else t
+
+    def m_allclose(interp, a, b, rtol=1e-05, atol=1e-08, equal_nan=False):
+        xs = list(a.items) if isinstance(a, RArr) else list(interp.iterate(a))
+        ys = list(b.items) if isinstance(b, RArr) else list(interp.iterate(b))
+        if len(xs) != len(ys):
+            raise PyRaise(ValueError("operands could not be broadcast together"))
+        ab = lambda t: z3.If(t >= 0, t, -t)
+        return wrap(z3.And(*[ab(R(x) - R(y)) <= R(atol) + R(rtol) * ab(R(y)) for x, y in zip(xs, ys)]))
+    I.models[np.allclose] = m_allclose
+    match = MatchStub(ctx)
+    self = _matcher_self(I, ctx, match)
+    n = 1 + ctx.choose(2, "pattern list length")
+    pvals = [ctx.const(f"pattern_value{i}", z3.RealSort()) for i in range(n)]
+    rel, abs_ = ctx.const("rel_tol", z3.RealSort()), ctx.const("abs_tol", z3.RealSort())
+    ctx.assume(z3.And(rel >= 0, abs_ >= 0))
+    pc = SObj(_pattern_ir.Constant, "constpattern")
+    plist = [SReal(p) for p in pvals]
+    pc.fields.update(_value=plist, value=plist, _rel_tol=SReal(rel), _abs_tol=SReal(abs_))
+    shape = [(1,), (2,), (3,), (1, 2), (2, 1), ()][ctx.choose(6, "shape of the constant")]
+    size = 1
+    for d in shape:
+        size *= d
+    cvals = [ctx.const(f"constant_value{i}", z3.RealSort()) for i in range(size)]
+    for nm, t in [(f"pattern_value{i}", p) for i, p in enumerate(pvals)] + [(f"constant_value{i}", c) for i, c in enumerate(cvals)] + [("rel_tol", rel), ("abs_tol", abs_)]:
+        ctx.witness[nm] = t
+    arr = RArr([SReal(c) for c in cvals], shape)
+    tensor = SObj(ir.Tensor, "tensor")
+
+    def numpy_():
+        raise AssertionError
+    I.models[numpy_] = lambda interp: arr
+    tensor.fields["numpy"] = numpy_
+    has_const = ctx.choose(2, "value is a known constant") == 0
+    overridable = ctx.choose(2, "value is also a graph input") == 1
+    value = SObj(ir.Value, "value")
+
+    def f_gi():
+        raise AssertionError
+    I.models[f_gi] = lambda interp: overridable
+    value.fields.update(const_value=(tensor if has_const else None), name="v", is_graph_input=f_gi)
+    try:
+        r = I.run_closure(I.closure_of(_matcher.SimplePatternMatcher._match_constant), [self, pc, value], {})
+    except PyRaise as e:
+        ctx.check("C06.matcher.match_constant.list.never_raises", False, "C06: 'a reported match is an occurrence of the pattern' — matching decides, it does not raise")
+        return
+    rt = z3.BoolVal(r) if isinstance(r, bool) else term(r)
+    ab = lambda t: z3.If(t >= 0, t, -t)
+    structural = has_const and not overridable and shape == (n,)
+    if structural:
+        close = []
+        for c, p in zip(cvals, pvals):
+            mx = z3.If(ab(c) >= ab(p), ab(c), ab(p))
+            lim = z3.If(rel * mx >= abs_, rel * mx, abs_)
+            close.append(ab(c - p) <= lim)
+        want = z3.And(*close)
+    else:
+        want = z3.BoolVal(False)
+    ctx.check("C06.matcher.match_constant.list.matches_iff_known_1d_constant_of_that_length_with_every_element_within_tolerance",
+              rt == want, "C06: 'constants agree within the stated tolerance'")
+    ctx.check("C06.matcher.match_constant.list.a_false_result_is_recorded_as_a_failed_match", z3.Or(rt, z3.BoolVal(match.failed)),
+              "C06: 'a reported match is an occurrence of the pattern'")
+
+
 SCENARIOS = [
     Scenario("C06.matcher.valid_to_replace", s_valid_to_replace, [(MREL, "_valid_to_replace")], kind="bounded",
              bound="<= 2 matched nodes, <= 2 outputs each, <= 2 consumers each; graph-output flags symbolic"),
@@ -283,6 +386,8 @@ SCENARIOS = [
              kind="bounded", bound="one alternative (enter ... abandon|merge) with two variables (names symbolic, possibly equal), one anonymous value pattern, two node patterns"),
     Scenario("C06.pattern_ir.node_pattern_matches", s_node_pattern_matches, [(PREL, "NodePattern.matches")], kind="bounded",
              bound="<= 2 attribute patterns (present/absent, can_match_none, variable or not; value agreement symbolic), one extra node attribute"),
+    Scenario("C06.matcher.match_constant.list", s_match_constant_list, [(MREL, "SimplePatternMatcher._match_constant")],
+             assumptions=["floats treated as reals"], trusted=["math.isclose / numpy.allclose tolerance formulas"]),
     Scenario("C06.matcher.match_constant", s_match_constant, [(MREL, "SimplePatternMatcher._match_constant")],
              trusted=["math.isclose(a, b, rel_tol, abs_tol) = |a-b| <= max(rel_tol*max(|a|,|b|), abs_tol) (Python documentation), floats as reals"],
              assumptions=["machine arithmetic treated as mathematical (reals) in the tolerance comparison"]),
